@@ -452,6 +452,16 @@ C20_SPECIAL = [
     ("by_generic_enum", "PartialOrd, PartialEq", "pub enum X<T: ::core::cmp::PartialOrd> { A(#[partial_ord(by = |a: &T, b: &T| a.partial_cmp(b))] T, u8), B }"),
     ("hash_by_generic", "Hash", "pub struct X<T: ::core::hash::Hash>(#[hash(by = |a: &T, s| ::core::hash::Hash::hash(a, s))] pub T);"),
     ("key_generic_explicit_bound", "Ord, PartialOrd, Eq, PartialEq, Hash", "pub struct X<T> { #[ord(key = $.len(), bound(T: ::core::marker::Sized))] pub a: ::std::vec::Vec<T> }"),
+    # user expressions that rely on the bound written next to them (field level), nothing repeated elsewhere
+    ("default_expr_needs_field_bound", "Default", "pub struct X<T> { #[default(T::new(), bound(T: New))] pub value: T, pub n: u8 }\npub trait New { fn new() -> Self; fn weight(&self) -> u8; }"),
+    ("default_expr_needs_nested_bound", "Default", "pub struct X<T> { #[derive_ex(Default(bound(T: New)))] #[default(T::new())] pub value: T }\npub trait New { fn new() -> Self; fn weight(&self) -> u8; }"),
+    ("default_expr_needs_nested_common_bound", "Default, Clone", "pub struct X<T: ::core::clone::Clone> { #[derive_ex(Default, bound(T: New))] #[default(T::new())] pub value: T }\npub trait New { fn new() -> Self; fn weight(&self) -> u8; }"),
+    ("default_expr_needs_field_bound_enum", "Default", "pub enum X<T> { #[default] A { #[default(T::new(), bound(T: New))] v: T, w: u8 }, B }\npub trait New { fn new() -> Self; fn weight(&self) -> u8; }"),
+    ("default_expr_needs_variant_bound", "Default", "pub enum X<T> { B, #[default(_, bound(T: New))] A(#[default(T::new())] T) }\npub trait New { fn new() -> Self; fn weight(&self) -> u8; }"),
+    ("default_expr_needs_type_bound", "Default", "#[default(_, bound(T: New))] pub struct X<T>(#[default(T::new())] pub T, #[default(7)] pub u8);\npub trait New { fn new() -> Self; fn weight(&self) -> u8; }"),
+    ("key_needs_field_bound", "Ord, PartialOrd, Eq, PartialEq, Hash", "pub struct X<T> { #[ord(key = $.weight(), bound(T: New))] pub a: T, pub b: u8 }\npub trait New { fn new() -> Self; fn weight(&self) -> u8; }"),
+    ("key_needs_type_bound", "PartialOrd, PartialEq", "#[partial_ord(bound(T: New))] pub enum X<T> { A(#[partial_ord(key = $.weight())] T), B }\npub trait New { fn new() -> Self; fn weight(&self) -> u8; }"),
+    ("by_needs_field_bound", "PartialEq, Eq", "pub struct X<T> { pub b: u8, #[eq(by = |a: &T, b: &T| a.weight() == b.weight(), bound(T: New))] pub a: T }\npub trait New { fn new() -> Self; fn weight(&self) -> u8; }"),
     ("raw_idents", "Clone, Debug, Default, PartialEq, Eq, PartialOrd, Ord, Hash", "pub struct r#X<r#T> { pub r#type: r#T, pub r#fn: u8 }"),
     ("raw_enum", "Clone, Debug, PartialEq, Eq, PartialOrd, Ord, Hash", "pub enum X { r#match { r#loop: u8 }, r#type(u8), r#Self_ }"),
     ("local_names_fields", "Clone, Debug, Default, PartialEq, Eq, PartialOrd, Ord, Hash, Add, AddAssign, Neg", "pub struct X { pub this: i8, pub other: i8, pub state: i8, pub f: i8, pub rhs: i8, pub source: i8, pub lhs: i8, pub o: i8 }"),
